@@ -133,7 +133,7 @@ func TestC46(t *testing.T) {
 			continue
 		}
 		r := c.CaseRng(i)
-		err := kit.Try(func() { c46Case(c, r) })
+		err := kit.Try(func() { c46Case(c, r, i) })
 		c.Inc("cases")
 		if err != nil {
 			c.Inconcl(err.Error())
@@ -141,7 +141,7 @@ func TestC46(t *testing.T) {
 	}
 }
 
-func c46Case(c *kit.Check, r *kit.Rng) {
+func c46Case(c *kit.Check, r *kit.Rng, idx int) {
 	w := kit.NewWorld(c.T, 2)
 	x := &c46{c: c, w: w, a: w.Chains[0], b: w.Chains[1], auth: authtypes.NewModuleAddress(govtypes.ModuleName).String(), cells: map[string]int{}}
 	a, b := x.a, x.b
@@ -238,6 +238,19 @@ func c46Case(c *kit.Check, r *kit.Rng) {
 	}
 
 	// ---- 2. counterparty registration: the creator, once
+	// client identifiers are chain-local: in most cases one side has created more clients than the other, so that the two ends of the
+	// v2 pair carry different identifiers (and the counterparty's identifier names an unrelated, unrestricted client locally)
+	if extra := 1 + r.Intn(3); idx%3 != 2 {
+		for j := 0; j < extra; j++ {
+			p := ibctesting.NewPath(a.TestChain, b.TestChain)
+			if extra%2 == 1 {
+				p.EndpointB.CreateClient()
+			} else {
+				p.EndpointA.CreateClient()
+			}
+		}
+		x.c.Inc("cases_with_different_client_ids_on_the_two_ends")
+	}
 	v2 := ibctesting.NewPath(a.TestChain, b.TestChain)
 	v2.SetupClients() // clients created by account 0 of each chain (= creator)
 	reg := func(s string) sdk.Msg {
